@@ -108,7 +108,7 @@ def judge_candidate(sp, att, c, ref, addr):
                 return ("segment", "effective segment %s, requested %s (%s)" % (nf.eff_seg(g), nf.eff_seg(e), ref[1]), "%s->%s" % (nf.eff_seg(e), nf.eff_seg(g)))
             if e[2] is None and g[2] not in (None, "ds", "ss"):
                 return ("segment", "%s override, none requested" % g[2], "none->%s" % g[2])
-            if g[3] != e[3]:
+            if nf.plain_regs(g[3]) != nf.plain_regs(e[3]):
                 return ("operand%d-base/index/scale" % i, "%s vs %s (%s)" % (sorted(g[3]), sorted(e[3]), ref[1]))
             if (g[4] - e[4]) & 0xFFFFFFFF:
                 return ("operand%d-displacement" % i, "0x%x vs 0x%x" % (g[4] & 0xFFFFFFFF, e[4] & 0xFFFFFFFF))
